@@ -286,6 +286,23 @@ pub proof fn lemma_modpow_zero(x: int, xa: nat, e: nat, m: int, ma: nat)
     }
 }
 
+
+impl BigInt {
+//@ extract src/bigint.rs :: impl BigInt :: fn modpow rules=R0,R0r props=C05,C14 label=BigInt_modpow
+    pub fn modpow(&self, exponent: &Self, modulus: &Self) -> /*+*/(res: /*-*/Self/*+*/)/*-*/
+//+{
+        requires self.wfi(), exponent.wfi(), modulus.wfi(), !mp() ==> exponent.iv() >= 0 && modulus.iv() != 0
+        ensures mp() ==> exponent.iv() >= 0 && modulus.iv() != 0, res.wfi(),
+            is_modpow(self.iv(), exponent.mag().v(), modulus.iv(), res.iv()),
+            modulus.iv() > 0 ==> 0 <= res.iv() < modulus.iv(),
+            modulus.iv() < 0 ==> modulus.iv() < res.iv() <= 0,
+//+}
+    {
+        modpow(self, exponent, modulus)
+    }
+//@ end
+}
+
 } // mod u
 } // verus!
 fn main() {}
